@@ -165,7 +165,7 @@ pub struct World {
 }
 
 fn mtime_of(tick: u64) -> std::time::SystemTime {
-    std::time::UNIX_EPOCH + std::time::Duration::new(1_600_000_000 + tick, ((tick * 7919) % 1_000_000_000) as u32)
+    std::time::UNIX_EPOCH + std::time::Duration::new(1_600_000_000 + tick, (tick.wrapping_mul(7919) % 1_000_000_000) as u32)
 }
 
 pub fn write_real(dir: &Path, name: &str, bytes: &[u8], tick: u64) -> std::io::Result<()> {
